@@ -211,6 +211,11 @@ ENTRIES = {
     "legacy-sse": ["create_client", "create_transport", "try_sse_with_fallback", "try_http_with_sse_fallback:server-speaks-sse-only",
                    "try_http_with_sse_fallback:server-speaks-neither-way-of-detection"],
 }
+# the http-json carrier with Content-Type parameters / a leading BOM ("http-json@ct:<n>"): JSON is UTF-8 whatever the header's
+# charset parameter says (RFC 8259)
+JSON_CONTENT_TYPES = ["application/json; charset=utf-8", "application/json; charset=UTF-8", "application/json; charset=ISO-8859-1",
+                      "application/json; charset=us-ascii", "application/json; charset=bogus", "application/json;charset=\"utf-8\"",
+                      "application/json+BOM", "application/json; charset=utf-8+BOM"]
 DETECT_ID = "transport-detect"      # the id detect_transport_type uses for its probe request
 
 
@@ -293,7 +298,12 @@ def run_carrier(carrier: str, steps: List[dict], driver: str = "helpers") -> Dic
                         return httpx.Response(202)
                     if carrier == "http-json":
                         body = json.dumps(msgs[0] if len(msgs) == 1 else msgs, ensure_ascii=False).encode("utf-8")
-                        return httpx.Response(200, headers={"content-type": "application/json"}, content=body)
+                        ctype = "application/json"
+                        if entry.startswith("ct:"):
+                            ctype = JSON_CONTENT_TYPES[int(entry[3:])]
+                            if ctype.endswith("+BOM"):
+                                ctype, body = ctype[:-4], b"\xef\xbb\xbf" + body
+                        return httpx.Response(200, headers={"content-type": ctype}, content=body)
                     if carrier == "http-sse-trailing-partial-event":
                         body = "".join("data: " + json.dumps(m, ensure_ascii=False) + "\n\n" for m in msgs) + \
                             'event: ping\ndata: {"jsonrpc"'
@@ -309,7 +319,7 @@ def run_carrier(carrier: str, steps: List[dict], driver: str = "helpers") -> Dic
                             StreamableHTTPTransport(StreamableHTTPParameters(url="http://mcp.test/mcp", timeout=5.0)), steps, log, q)
                     else:
                         url = "http://mcp.test/mcp"
-                        if entry:
+                        if entry and not entry.startswith("ct:"):
                             from chuk_mcp.transports import create_client, create_transport
                             from chuk_mcp.transports.http.http_client import create_http_parameters_from_url, try_http_with_sse_fallback
 
@@ -449,6 +459,8 @@ def run_one(ctl: explorer.Ctl, cfg: Dict[str, Any]) -> Dict[str, Any]:
     carriers = [c for c in CARRIERS if not (c == "http-json" and any(s["notes"] for s in steps))]
     if cfg.get("untyped"):
         carriers += UNTYPED_CARRIERS
+    if cfg.get("untyped") and "http-json" in carriers:
+        carriers += [f"http-json@ct:{i}" for i in range(len(JSON_CONTENT_TYPES))]
     if cfg.get("entries"):
         carriers += [f"{c}@{e}" for c in list(carriers) for e in ENTRIES.get(c, [])]
     results = {c: run_carrier(c, steps, cfg.get("driver", "helpers")) for c in carriers}
@@ -577,7 +589,8 @@ def run(tier: str, only=None) -> core.Result:
         "error message and notification params carry an endpoint-looking text (/messages/, /mcp, http://x/mcp?a=1): alone, paired with "
         "each other and paired (both orders) with the reduced step set; those and all single-step conversations additionally over "
         "legacy SSE with UNTYPED events (both orders) and over Streamable HTTP whose SSE bodies end in the unterminated beginning of a "
-        "further event; a reduced conversation set (26 single steps, 4 x 26 pairs starting with "
+        "further event, and (when they hold no notifications) over Streamable HTTP JSON bodies labelled with Content-Type "
+        "parameters (charset utf-8 / UTF-8 / ISO-8859-1 / us-ascii / bogus / quoted) and with a leading BOM; a reduced conversation set (26 single steps, 4 x 26 pairs starting with "
         "initialize) additionally with every carrier obtained through transports.create_client, transports.create_transport, "
         "create_http_parameters_from_url / create_sse_parameters_from_url, try_sse_with_fallback and try_http_with_sse_fallback "
         "(the scripted server answers detect_transport_type's probes as an HTTP-only, HTTP+SSE, SSE-only or undetectable server, "
@@ -588,5 +601,7 @@ def run(tier: str, only=None) -> core.Result:
         "each carrier is fed its canonical encoding in whole-line / whole-event chunks (framing and encoding variants are decided by C05, C11, C12)",
         "HTTP with a JSON body cannot carry notifications before a response and is compared on conversations without them",
         "ids are compared as 'the id of request i' (value and JSON type), since each run draws its own ids",
+        "a JSON body is UTF-8 whatever charset parameter its Content-Type names; a leading BOM is ignored (RFC 8259 allows a parser "
+        "to do so; the current transport does)",
     ]
     return res
